@@ -129,6 +129,18 @@ fn verif_sched_delay(path: &Path, stage: u8) {
   (seed, path, stage).hash(&mut hasher);
   let millis = hasher.finish() % if stage == 0 { 8 } else { 4 };
   std::thread::sleep(std::time::Duration::from_millis(millis));
+  let h = hasher.finish();
+  // AST_GREP_VERIF_SCHED_STALL=<millis>: about one file in eight stalls that long before it is
+  // processed (a slow file: nothing reaches the printer for a while)
+  static STALL: OnceLock<Option<u64>> = OnceLock::new();
+  let stall = STALL.get_or_init(|| {
+    std::env::var("AST_GREP_VERIF_SCHED_STALL")
+      .ok()
+      .and_then(|s| s.parse().ok())
+  });
+  if let (Some(ms), 0, 0) = (stall, stage, (h >> 8) % 8) {
+    std::thread::sleep(std::time::Duration::from_millis(*ms));
+  }
 }
 
 fn run_worker<W: PathWorker + ?Sized + 'static, P: Printer>(
